@@ -33,12 +33,20 @@ func genBindings(t *rapid.T) map[string]string {
 	if rapid.Bool().Draw(t, "xmlPrefix") {
 		ns["xml"] = xmodel.XMLNS
 	}
+	// prefixes that spell axis names and node types: with the document's element
+	// names (child, self, text, node, comment, ancestor) they give QNames whose both
+	// halves are reserved words
+	for _, p := range []string{"child", "self", "text", "node", "ancestor"} {
+		if rapid.IntRange(0, 3).Draw(t, "kw-"+p) == 0 {
+			ns[p] = []string{"urn:x", "urn:y"}[rapid.IntRange(0, 1).Draw(t, "kwURI-"+p)]
+		}
+	}
 	return ns
 }
 
 func prefixesOf(ns map[string]string) []string {
 	var out []string
-	for _, p := range []string{"x", "y", "x2", "xml", "child", "self"} {
+	for _, p := range []string{"x", "y", "x2", "xml", "child", "self", "text", "node", "ancestor"} {
 		if _, ok := ns[p]; ok {
 			out = append(out, p)
 		}
